@@ -187,6 +187,47 @@ pub fn record(out_path: &str, max_hay_log2: u32, seed: u64, force: &str) -> u64 
             }
         }
     }
+    // preprocessing only (C13: "building a finder ..."): needle shapes, their mirror images and shapes built around a
+    // defect in the middle, at sizes up to 16384; the bound for build operations is CMUL * |needle| + CADD
+    for &m in &[2usize, 3, 8, 33, 64, 255, 256, 257, 1024, 4096, 16384] {
+        let mut shapes: Vec<(String, Vec<u8>)> = families(m, 2 * m, seed).into_iter().map(|(fam, nd, _)| (fam.to_string(), nd)).collect();
+        let k = (m / 2).max(1);
+        let mut s1 = vec![b'a'; 2 * k + 1];
+        s1[0] = b'b';
+        s1[k] = b'c';
+        shapes.push(("b a^(k-1) c a^k".to_string(), s1));
+        let mut s2 = vec![b'a'; 2 * k + 1];
+        s2[k] = b'b';
+        shapes.push(("a^k b a^k".to_string(), s2));
+        let mut s3 = rep(b"ab", 2 * k);
+        s3.push(b'a');
+        shapes.push(("(ab)^k a".to_string(), s3));
+        let mut s4 = rep(b"aab", 2 * k);
+        s4[k] = b'c';
+        shapes.push(("(aab)^j with c in the middle".to_string(), s4));
+        let mut r = Rng::new(seed ^ 0xC05E ^ m as u64);
+        let s5: Vec<u8> = (0..m).map(|_| if r.chance(7, 8) { b'a' } else { b'b' }).collect();
+        shapes.push(("random, mostly a".to_string(), s5));
+        for (fam, nd0) in shapes {
+            for mirrored in [false, true] {
+                let nd: Vec<u8> = if mirrored { nd0.iter().rev().cloned().collect() } else { nd0.clone() };
+                let name = format!("needle only: {fam}{}", if mirrored { " (mirrored)" } else { "" });
+                for (op, pf) in [("build_forward", "auto"), ("build_forward", "none"), ("build_reverse", "auto")] {
+                    let pfc = if pf == "auto" { Prefilter::Auto } else { Prefilter::None };
+                    hook::start(&[]);
+                    if op == "build_forward" {
+                        let _fw = FinderBuilder::new().prefilter(pfc).build_forward(&nd);
+                    } else {
+                        let _rv = FinderBuilder::new().build_reverse(&nd);
+                    }
+                    let (_, t) = hook::stop();
+                    let rec = json!({"k": "cost", "family": name, "op": op, "prefilter": pf, "force": force, "nlen": nd.len(), "hlen": 0, "ticks": ticks_json(&t), "result": 0});
+                    writeln!(f, "{}", rec).unwrap();
+                    nrec += 1;
+                }
+            }
+        }
+    }
     f.flush().unwrap();
     nrec
 }
